@@ -54,6 +54,15 @@ PROPS = {
         explanation='Registration, per-change action calls and the timetable arithmetic proved for every timetable; system invariant: one pending transition at the prescribed time; '
                     'tie = fact tables (incl. the is_cyclical=True default) + lock-step on the real ActionScheduler.',
         assumptions=['timetable non-empty (asserted by the constructor)', 'actions only log (they do not re-enter the scheduler)']),
+    'C19': dict(
+        vfile='Props/C19.v', ties=['Tie/TieEnv.v', 'Tie/TieSensor.v'],
+        families=[('sensor', 1500, 40000, 'small', 'large')],
+        rule='F_sensor scenarios: periodic sensor (1-3 probes incl. a list attribute mutated in place), output-part sensor, Cms, callbacks added before/after start, '
+             'probed attributes changed by events; non-trivial = a data capacity was reached and a callback ran; distinct by scenario text',
+        explanation='Series = most recent min(count, capacity) measurements and aligned (incl. the time series), part counting, callback order, Cms idempotence, '
+                    'k-th measurement k intervals after the start (system invariant); tie = fact tables + lock-step on the real sensors.',
+        assumptions=['copy.copy of a probed value: checked by the lock-step with a list attribute mutated in place (values are immutable in the model)',
+                     'data_capacity >= 1 (asserted by the constructor)']),
 }
 
 LEVELS = {
@@ -93,9 +102,16 @@ LEVELS = {
              'system invariant over the event queue (one pending transition at the prescribed time).',
         design_ref='DESIGN.md section 8, C18', technique='Coq proof (induction over state changes + system invariant) + lock-step correspondence with ActionScheduler',
         note='Trusted: Coq kernel, pyfacts.py, extraction + OCaml driver, Python harness.'),
+    'C19': dict(
+        text='Machine-checked Coq theorems: every probe series and the time series hold exactly the most recent min(count, capacity) entries and stay aligned; '
+             'each measurement stores the probed values and calls every callback once in registration order; output-part sensor measures part 1, n+2, 2n+3, ...; '
+             'Cms.add_sensor idempotent; one pending periodic measurement, the k-th due k intervals after the start. The alignment clause was false of the original code '
+             '(coq/Findings/C19_refuted.v), repaired by a fix: commit.',
+        design_ref='DESIGN.md section 8, C19', technique='Coq proof (suffix invariant, counter arithmetic, system invariant) + lock-step correspondence with the sensor classes',
+        note='Trusted: Coq kernel, pyfacts.py, extraction + OCaml driver, Python harness.'),
 }
 
 NOT_APPLICABLE = [
     dict(property_id=p, reason='check under construction in this round (model layer not yet built); see DESIGN.md section 12 build order')
-    for p in ['C02', 'C03', 'C04', 'C05', 'C06', 'C08', 'C11', 'C13', 'C14', 'C15', 'C16', 'C17', 'C19', 'C20']
+    for p in ['C02', 'C03', 'C04', 'C05', 'C06', 'C08', 'C11', 'C13', 'C14', 'C15', 'C16', 'C17', 'C20']
 ]
